@@ -69,6 +69,11 @@ def glue_contracts(T: Types, reg: Registry):
     def err(c):
         return spec_step_error(T, cell(c), c.arg("status"), rid_some(c))
 
+    def no_edge(c):
+        from .common import spec_edge
+        ost = Opt(T.Status)
+        return z3.Not(spec_edge(T, ost.some(T.Record.get(OREC.val(cell(c)), "status")), c.arg("status")))
+
     def new_rec(c):
         return rec_t.opt.val(z3.Select(c.f(REC), c.arg("invocation_id")))
     is_final = lambda c: T.status_in(c.arg("status"), SPEC["final"])
@@ -80,7 +85,11 @@ def glue_contracts(T: Types, reg: Registry):
         frame=all_fields,
         cases=[
             Case("unknown-id", when=lambda c: OREC.is_none(cell(c)), raises="KeyError", exact=True, ensures=unchanged(*all_fields)),
-            Case("refused", when=lambda c: z3.And(OREC.is_some(cell(c)), err(c)), raises="InvocationStatusError", ensures=unchanged(*all_fields)),
+            # the state machine validates the edge first, then ownership: the class of the status error is determined
+            Case("refused-no-such-edge", when=lambda c: z3.And(OREC.is_some(cell(c)), err(c), no_edge(c)), raises="InvocationStatusTransitionError",
+                 exact=True, ensures=unchanged(*all_fields)),
+            Case("refused-not-the-owner", when=lambda c: z3.And(OREC.is_some(cell(c)), err(c), z3.Not(no_edge(c))), raises="InvocationStatusOwnershipError",
+                 exact=True, ensures=unchanged(*all_fields)),
             Case("accepted", when=lambda c: z3.And(OREC.is_some(cell(c)), z3.Not(err(c))), ensures=[
                 ("C01:only-this-record-moves-along-the-spec", lambda c: z3.And(
                     c.f(REC) == z3.Store(c.old(REC), c.arg("invocation_id"), rec_t.opt.some(new_rec(c))),
@@ -116,11 +125,11 @@ def glue_contracts(T: Types, reg: Registry):
             Case("refused", when=lambda c: z3.And(OREC.is_some(cell_inv(c)), err_i(c)), raises="InvocationStatusError",
                  ensures=unchanged(REC) + [("J5", j5)]),
             Case("storage-fault", raises="Exception", ensures=[
-                ("a-failed-outcome-write-publishes-nothing", lambda c: z3.Implies(
-                    z3.Not(z3.Select(c.f(store_path), inv_id(c))), c.f(REC) == c.old(REC))), ("J5", j5)]),
+                ("a-failed-outcome-write-publishes-nothing", lambda c: c.f(REC) == c.old(REC)), ("J5", j5)]),
             Case("published", when=lambda c: z3.And(OREC.is_some(cell_inv(c)), z3.Not(err_i(c))), ensures=[
                 ("outcome-stored", lambda c: z3.Select(c.f(store_path), inv_id(c))),
-                ("status-published", lambda c: status_of(T, c.f(REC), inv_id(c)) == T.S(target)),
+                ("status-published", lambda c: z3.And(status_of(T, c.f(REC), inv_id(c)) == T.S(target), known(T, c.f(REC), inv_id(c)),
+                                                      Opt(RUNNER).is_none(owner_of(T, c.f(REC), inv_id(c))))),
                 ("only-this-record", lambda c: z3.ForAll([z3.Const("o", ID.sort())], z3.Implies(
                     z3.Const("o", ID.sort()) != inv_id(c), z3.Select(c.f(REC), z3.Const("o", ID.sort())) == z3.Select(c.old(REC), z3.Const("o", ID.sort()))))),
                 ("J5", j5),
@@ -228,7 +237,10 @@ def glue_part2(T: Types, reg: Registry, C: dict):
             Case("refused", when=lambda c: z3.And(OREC.is_some(z3.Select(c.old(REC), c.arg("invocation_id"))), err_to(c, "RETRY")),
                  raises="InvocationStatusError", ensures=unchanged(REC, QUEUE, RETRIES)),
             Case("retry", when=lambda c: z3.And(OREC.is_some(z3.Select(c.old(REC), c.arg("invocation_id"))), z3.Not(err_to(c, "RETRY"))), ensures=[
-                ("status-RETRY", lambda c: status_of(T, c.f(REC), c.arg("invocation_id")) == T.S("RETRY")),
+                ("status-RETRY", lambda c: z3.And(status_of(T, c.f(REC), c.arg("invocation_id")) == T.S("RETRY"), known(T, c.f(REC), c.arg("invocation_id")),
+                                                  OSTR.is_none(owner_of(T, c.f(REC), c.arg("invocation_id"))))),
+                ("only-this-record", lambda c: z3.ForAll([z3.Const("o", ID.sort())], z3.Implies(
+                    z3.Const("o", ID.sort()) != c.arg("invocation_id"), z3.Select(c.f(REC), z3.Const("o", ID.sort())) == z3.Select(c.old(REC), z3.Const("o", ID.sort()))))),
                 ("re-queued-once", lambda c: c.f(QUEUE) == z3.Store(c.old(QUEUE), c.arg("invocation_id"), z3.Select(c.old(QUEUE), c.arg("invocation_id")) + 1)),
                 ("retry-counter-plus-one", lambda c: z3.Select(c.f(RETRIES), c.arg("invocation_id")) == MapT(ID, INT).opt.some(
                     z3.If(MapT(ID, INT).opt.is_some(z3.Select(c.old(RETRIES), c.arg("invocation_id"))),
